@@ -2,11 +2,14 @@
 # usage: tools/seedmatrix.sh [tier]   -- every seeded change against its own property's check
 # (and extra properties listed in seeded/<id>/also), sequentially; writes seeded/MATRIX.txt
 tier=${1:-quick}
+from=${2:-}
 cd /verif
 out=seeded/MATRIX.txt
-: > $out.tmp
-for d in seeded/C*-*/; do
+if [ -n "$from" ]; then grep -v " *$" /dev/null; awk -v f="$from" '$1==f{exit} {print}' $out > $out.tmp; else : > $out.tmp; fi
+skip=$from
+for d in $(ls -d seeded/C*-*/ | sort -V); do
   id=$(basename $d); prop=${id%%-*}
+  if [ -n "$skip" ]; then [ "$id" = "$skip" ] && skip="" || continue; fi
   props="$prop"
   [ -f $d/also ] && props="$props $(cat $d/also)"
   for p in $props; do
